@@ -7,6 +7,7 @@ import (
 	"flag"
 	"fmt"
 	"os"
+	"path/filepath"
 	rdebug "runtime/debug"
 	"runtime/pprof"
 	"sort"
@@ -44,7 +45,7 @@ func main() {
 			defer pprof.StopCPUProfile()
 		}
 	}
-	rdebug.SetGCPercent(800)       // the analysis allocates many short-lived states; memory is not the constraint
+	rdebug.SetGCPercent(800)        // the analysis allocates many short-lived states; memory is not the constraint
 	rdebug.SetMemoryLimit(20 << 30) // ... up to a point: past 20 GiB collect eagerly instead of growing
 	start := time.Now()
 	defer func() {
@@ -55,8 +56,14 @@ func main() {
 	}()
 	p, err := load.Load(*repo, "", 10)
 	if err != nil {
+		// nothing was analysed: not a pass
+		os.MkdirAll(filepath.Join(*verif, "evidence", "violations"), 0o755)
+		path := filepath.Join(*verif, "evidence", "violations", *prop+"-1.json")
+		b, _ := json.MarshalIndent(map[string]interface{}{"property": *prop, "undecided": fmt.Sprintf("cannot load %s: %v", *repo, err)}, "", " ")
+		os.WriteFile(path, b, 0o644)
+		fmt.Printf("VIOLATION property=%s replay=%s\n", *prop, path)
 		fmt.Printf("UNDECIDED property=%s cannot load %s: %v\n", *prop, *repo, err)
-		os.Exit(2)
+		os.Exit(1)
 	}
 	ctx := &rules.Ctx{P: p, Tier: *tier, Oracle: *oracle}
 	rules.InitRoles(ctx)
@@ -202,6 +209,10 @@ func doReplay(ctx *rules.Ctx, path string) int {
 		return 2
 	}
 	rule := rec.Finding.Rule
+	if rule == "" {
+		fmt.Println("this replay file records an undecided or vacuous verdict, not a single obligation: run the property's check again")
+		return 2
+	}
 	base := strings.TrimSuffix(rule, "@386")
 	var f rules.RuleFunc
 	for id, fn := range rules.Registry {
